@@ -223,7 +223,7 @@ def replay_mapped(n, is_async, bind_at, via_runner_map, clone=False, swap=False,
     w = World(True, False, {"bind_at": bind_at, "mapped": not via_runner_map, "clone": clone, "swap": swap and not via_runner_map, "rename_aux": rename_aux})
     marks = list(range(1, n + 1))
     inps = [[] for _ in marks]
-    w.aux, w.aux2 = ["aux"], ["aux2"]          # broadcast values owned by the caller
+    w.aux, w.aux2 = ["aux"], (["aux2"], "tag")          # broadcast values owned by the caller (a list; a tuple holding a list)
     values = {("acc" if swap and not via_runner_map else "inp"): inps, "mark": marks, ("helper" if rename_aux else "aux"): w.aux, "aux2": w.aux2}
     if rename_aux == "swap":
         values.pop("helper")
